@@ -34,7 +34,7 @@ def run(ctx, res):
     bs = {B.name: B for B in discover(F)}
     n = 0
     B = bs.get("SdesItemBuilder")
-    item_parse = [d for d in F.bodies if d.endswith("SdesItem::<'a>::parse")]
+    item_parse = D.by_signature(["&[u8]"], "Result<(sdes::SdesItem<", "sdes::")
     res.ob(B is not None and bool(item_parse), "anchor", "SdesItemBuilder", "item builder and item parser exist")
     if B and item_parse:
         S = Summary(F, B, exact=False)
